@@ -83,6 +83,7 @@ def step (s : Seq) (toks : List String) (rhs : String) : Seq × Verdict :=
       | _ => (s, .bad "tr rhs")
     | _, _ => (s, .bad "tr args")
   | ["set", v] =>
+    if rhs = "hang" then (s, .spec "Set did not terminate although no other goroutine interferes") else
     match v.toNat? with
     | some v =>
       match s.set v with
@@ -100,6 +101,7 @@ def step (s : Seq) (toks : List String) (rhs : String) : Seq × Verdict :=
     if some rhs ≠ (history s).getLast?.map toString then (s, .spec "Get() is not the last recorded state")
     else (s, if out = rhs then .ok else .diff out)
   | "round" :: ops =>
+    if rhs = "hang" then (s, .spec "a round of Transition/Set calls did not terminate") else
     match rhs.splitOn " ; " with
     | [res, fin, obs] =>
       let resT := (res.splitOn " ").filter (· ≠ "")
